@@ -227,6 +227,17 @@ def run_spec(name):
             rr["symbolic_what"] = "native run on ordinary decimal parameter values: " + rr["what"]
             out.update(result="violation", cex=rr)
             return out
+    # the parameter values handed over as NumPy scalars (the instance keeps their types)
+    import numpy as _np
+    for conv in (_np.float32, _np.int64, _np.float64, int):
+        vals = [conv(2 + k) if conv in (_np.int64, int) else conv(0.5 + 0.25 * k) for k in range(len(names))]
+        rr = concrete_check(name, list(perms[0]), vals)
+        out["validated"] = out.get("validated", 0) + 1
+        if isinstance(rr, dict):
+            rr["symbolic_what"] = "parameter values passed as %s: %s" % (conv.__name__, rr["what"])
+            rr["values"] = [rr["values"][0], [float(x) for x in vals], conv.__name__]
+            out.update(result="violation", cex=rr)
+            return out
     if name in NO_OFFSET:
         for vals in ([3.3e-13 * (k + 1) for k in range(len(names))], [-7.25e-15 * (k + 2) for k in range(len(names))], [1.5e17 * (k + 1) for k in range(len(names))],
                      [(1e-7 if k % 2 else 2.5e9) * (k + 1) for k in range(len(names))]):
@@ -408,7 +419,12 @@ REPLAY = '''#!/usr/bin/env python
 # or re-run the structural edits.
 import sys; sys.path.insert(0, %(root)r)
 from bbverif.checks import c17
-a, b = %(vals)r
+vals = %(vals)r
+a, b = vals[0], vals[1]
+if len(vals) > 2:
+    import numpy
+    conv = {"float32": numpy.float32, "int64": numpy.int64, "float64": numpy.float64, "int": int}[vals[2]]
+    b = [conv(x) for x in b]
 if a == "rematch":
     r = c17.rematch_check(%(name)r, b[0], b[1])
 elif isinstance(a, str):
